@@ -336,14 +336,19 @@ TYPES = {"pytree": run_pytree, "solve": run_solve, "vmap": run_vmap}
 
 
 def run_cases(cases):
+    import time
+
     out = []
     for c in cases:
+        t0 = time.time()
         try:
             out.append(TYPES[c["type"]](c))
         except Exception as e:  # noqa: BLE001
             import traceback
 
             out.append({"error": f"{type(e).__name__}: {e}", "tb": traceback.format_exc()[-2500:]})
+        out[-1]["_wall"] = round(time.time() - t0, 1)
+        print(c["type"], c.get("kind"), c.get("routine"), "nojit" if c.get("nojit") else "", out[-1]["_wall"], flush=True)
     return out
 
 
@@ -364,19 +369,20 @@ def main():
             continue
         fin, fout = f"{sys.argv[1]}.w{w}.in", f"{sys.argv[1]}.w{w}.out"
         json.dump({"cases": [cases[i] for i in idxs]}, open(fin, "w"))
-        p = subprocess.Popen([sys.executable, os.path.abspath(__file__), fin, fout, "--worker"],
-                             stdout=subprocess.PIPE, stderr=subprocess.STDOUT, text=True)
+        logf = open(fin + ".log", "w")
+        p = subprocess.Popen([sys.executable, os.path.abspath(__file__), fin, fout, "--worker"], stdout=logf, stderr=subprocess.STDOUT)
         procs.append((p, idxs, fin, fout))
     results = [None] * len(cases)
     for p, idxs, fin, fout in procs:
-        log, _ = p.communicate()
+        p.wait()
+        log = open(fin + ".log").read() if os.path.exists(fin + ".log") else ""
         if p.returncode != 0 or not os.path.exists(fout):
             for i in idxs:
                 results[i] = {"error": f"worker crashed (rc={p.returncode})", "tb": (log or "")[-1500:]}
         else:
             for i, r in zip(idxs, json.load(open(fout))["results"]):
                 results[i] = r
-        for f in (fin, fout):
+        for f in (fin, fout, fin + ".log"):
             if os.path.exists(f):
                 os.remove(f)
     json.dump({"results": results}, open(sys.argv[2], "w"))
